@@ -1565,7 +1565,7 @@ pub fn run(ctx: &Ctx) -> Evidence {
         }
     }
     let verdicts: Mutex<Vec<(String, bool, J)>> = Mutex::new(vec![]);
-    {
+    let rerun_alone = |jobs_list: &Vec<(String, String, u64, i64, usize)>| {
         use std::sync::atomic::AtomicUsize as AU;
         let next = AU::new(0);
         std::thread::scope(|sc| {
@@ -1586,7 +1586,22 @@ pub fn run(ctx: &Ctx) -> Evidence {
                 });
             }
         });
+    };
+    rerun_alone(&jobs_list);
+    // second pass: where the first re-runs all finished, the watchdog was about load, not about the
+    // input – but that is only known for the sub-runs that were re-run. Re-run the remaining suspects
+    // of such keys as well (inputs are deterministic: a re-run that finishes refutes the hang).
+    const RERUN_CAP: usize = 48;
+    let mut second: Vec<(String, String, u64, i64, usize)> = vec![];
+    for (key, list) in per_key.iter() {
+        let any_hung = verdicts.lock().unwrap().iter().any(|v| &v.0 == key && v.1);
+        if !any_hung {
+            for (profile, id, sub) in list.iter().skip(confirm_n).take(RERUN_CAP) {
+                second.push((key.clone(), profile.clone(), *id, *sub, list.len()));
+            }
+        }
     }
+    rerun_alone(&second);
     let mut confirmed_keys = 0u64;
     let mut slow_not_hung = 0u64;
     for (key, list) in per_key.iter() {
@@ -1598,7 +1613,11 @@ pub fn run(ctx: &Ctx) -> Evidence {
             e.0 += list.len() as u64;
         } else {
             slow_not_hung += vs.len() as u64;
-            ctx.inconclusive(&format!("watchdog fired for {} ({} sub-runs) but the re-run alone finished: machine overloaded?", key, list.len()));
+            if vs.len() < list.len() {
+                ctx.inconclusive(&format!("watchdog fired for {} ({} sub-runs); the {} that were re-run alone finished, the rest were not re-run: machine overloaded?", key, list.len(), vs.len()));
+            } else {
+                ctx.note(&format!("watchdog fired for {} ({} sub-runs) under load; every one of them finished when re-run alone: not a hang", key, list.len()));
+            }
         }
     }
     let a = agg.into_inner().unwrap();
